@@ -1,4 +1,5 @@
 import RF.Lemmas.Project
+import RF.Lemmas.ParseErrors
 
 /-!
 # C05  A failing run never damages source files
@@ -25,6 +26,7 @@ exit 1).  A `required_version` mismatch, a missing path, a syntax error do *not*
 -/
 namespace RF.Props.C05
 open RF.Session RF.Project RF.Gen.Phases RF.Gen.Emitters RF.Lemmas.Project RF.Lemmas.Session
+open RF.ParseErrors RF.Gen.ParseErrs RF.Gen.ModArms RF.Lemmas.ParseErrors
 
 /-- The formatter proper, as the generated lists describe it. -/
 abbrev genF (ops : FileOps) (kind : EmitterKind) : Config Cfg → Tree → List Effect × Option Flags :=
@@ -51,10 +53,11 @@ theorem fault_implies_no_write_of_safe (ps : List Phase) (hs : phasesSafe ps = t
   simp only [phasesSafe, Bool.and_eq_true] at hs
   exact exec_fault ⟨steps, ops, kind, cfg, root⟩ hf ps {} false false false hs.1 (by simp) (by simp)
 
-/-- **A failing root writes nothing** (the generated order): any fault in the root or in any file that
+/-- **A failing root writes nothing** (the generated order; files given by their parse *status* — the statement
+over diagnostics, ignore lists and recoverable errors is `fault_implies_no_write` below): any fault in the root or in any file that
 module resolution reaches ⇒ no file-system call at all for that root, in every emit mode, and the
 failure is recorded. -/
-theorem fault_implies_no_write (ops : FileOps) (kind : EmitterKind) (cfg : Cfg) (root : Tree) (hf : faulty cfg root = true) :
+theorem fault_implies_no_write_status (ops : FileOps) (kind : EmitterKind) (cfg : Cfg) (root : Tree) (hf : faulty cfg root = true) :
     (runProject formatProject formatFile ops kind cfg root).log = [] ∧
     ((cfg.skipChildren && root.file.ignored) = false →
       (runProject formatProject formatFile ops kind cfg root).flagged = true) :=
@@ -97,7 +100,7 @@ theorem fault_implies_exit_one (ops : FileOps) (kind : EmitterKind) (g : Config 
     | false => simp at hc; subst hc; simp [argOut]
   rw [pureLoop_single, hout]
   simp only [pureExit, sumFlags, List.foldr_cons, List.foldr_nil, add_none, Bool.false_eq_true, if_false]
-  obtain ⟨_, hflag⟩ := fault_implies_no_write ops kind c.opts root hf
+  obtain ⟨_, hflag⟩ := fault_implies_no_write_status ops kind c.opts root hf
   have hflag := hflag hi
   unfold outOf
   cases hv : c.versionOk with
@@ -134,6 +137,89 @@ theorem never_stuck (ops : FileOps) (kind : EmitterKind) (cfg : Cfg) (root : Tre
   have hs := phases_safe
   simp only [phasesSafe, Bool.and_eq_true] at hs
   exact exec_not_stuck ⟨formatFile, ops, kind, cfg, root⟩ formatProject {} false false false false hs.1 (by simp) (by simp)
+
+/-- **Only the format loop touches the file system**: every other phase of `format_project` leaves the effect
+log exactly as it found it, whether it goes on or leaves the function. -/
+theorem only_the_loop_writes (e : Env) (p : Phase) (s : St) (hp : p ≠ .formatLoop) :
+    match step e p s with
+    | .next s' => s'.log = s.log
+    | .done r => r.log = s.log := by
+  cases p with
+  | formatLoop => exact absurd rfl hp
+  | newParseSess => by_cases h : e.cfg.ignoreGlobOk = true <;> simp [step, h]
+  | ignoreRootCheck =>
+    cases h1 : s.psess <;> cases h2 : (e.cfg.skipChildren && e.root.file.ignored) <;> simp [step, h1, h2]
+  | parseCrate =>
+    cases h1 : s.psess
+    · simp [step, h1]
+    · by_cases h2 : e.root.file.parse = .ok <;> simp [step, h1, h2]
+  | resolveModules =>
+    cases h1 : s.krate with
+    | none => simp [step, h1]
+    | some k => cases h2 : visitCrate (!e.cfg.skipChildren) k <;> simp [step, h1, h2]
+  | filterFiles => simp [step]
+
+/-- **No write precedes the last parse** (the generated order): the two phases that parse source files —
+`parse_crate` (the root) and `visit_crate` (every out-of-line module) — both come before the one format loop, and
+nothing that parses comes after it.  With `only_the_loop_writes`: when the first file is written, every file of
+the crate has been parsed and module resolution has succeeded. -/
+theorem all_parsing_precedes_the_loop :
+    (formatProject.takeWhile (· ≠ .formatLoop)).count .parseCrate = 1 ∧
+    (formatProject.takeWhile (· ≠ .formatLoop)).count .resolveModules = 1 ∧
+    ((formatProject.dropWhile (· ≠ .formatLoop)).all fun p => p != .parseCrate && p != .resolveModules) = true := by
+  decide
+
+/-- what one test of `should_skip_module` asks of a file (a path input is never standard input) -/
+def skipCondHolds (cfg : Cfg) (mainPath : Nat) (f : File) : SkipCond → Bool
+  | .skipAttr => f.skipAttr
+  | .skipChildrenNotMain => cfg.skipChildren && f.path != mainPath
+  | .ignored => f.ignored
+  | .generated => f.generated
+
+/-- The filter of the model is the filter of the source: `shouldSkip` is the disjunction of the tests the
+translator finds in `should_skip_module` (inner `#![rustfmt::skip]`; `skip_children` and not the main file; on
+the `ignore` list; a generated file under `format_generated_files = false`). -/
+theorem should_skip_matches_source (cfg : Cfg) (mainPath : Nat) (f : File) :
+    shouldSkip cfg mainPath f = shouldSkipConds.any (skipCondHolds cfg mainPath f) := by
+  simp [shouldSkip, shouldSkipConds, skipCondHolds, Bool.or_assoc]
+
+/-- **A file that is filtered out is never written** (the generated order): every file-system call of a run is
+on the path of a file of the tree that passes the filter — not on the `ignore` list, no `#![rustfmt::skip]`, not
+a child under `skip_children`, not a generated file. -/
+theorem skipped_file_never_written (ops : FileOps) (kind : EmitterKind) (cfg : Cfg) (root : Tree) :
+    ∀ x ∈ (runProject formatProject formatFile ops kind cfg root).log,
+      ∃ f ∈ allFilesT root, x.path = f.path ∧ shouldSkip cfg root.file.path f = false := by
+  intro x hx
+  simp only [runProject, formatProject, exec_cons] at hx
+  cases hg : cfg.ignoreGlobOk with
+  | false => rw [step_new_bad hg] at hx; cases hx
+  | true =>
+    rw [step_new_ok hg] at hx; simp only at hx
+    cases hi : (cfg.skipChildren && root.file.ignored) with
+    | true => rw [step_ign_ret rfl hi] at hx; cases hx
+    | false =>
+      rw [step_ign_next rfl hi] at hx; simp only at hx
+      by_cases hp : root.file.parse = .ok
+      · rw [step_parse_ok rfl hp] at hx; simp only at hx
+        cases hv : visitCrate (!cfg.skipChildren) root with
+        | none => rw [step_res_err rfl hv] at hx; cases hx
+        | some files =>
+          rw [step_res_ok rfl hv] at hx; simp only at hx
+          rw [step_filter] at hx; simp only at hx
+          have hl := formatLoop_log formatFile ops kind file_steps_safe
+            (files.filter fun f => !shouldSkip cfg root.file.path f) {} []
+          cases hfl : formatLoop formatFile ops kind (files.filter fun f => !shouldSkip cfg root.file.path f) {} [] with
+          | mk o log =>
+            rw [hfl] at hl
+            have hmem : x ∈ log := by
+              cases o with
+              | none => rw [step_loop_err hfl] at hx; exact hx
+              | some rep => rw [step_loop_ok hfl] at hx; simpa [exec] using hx
+            rcases hl x hmem with h1 | ⟨f, hf, hw⟩
+            · cases h1
+            · obtain ⟨hf1, hf2⟩ := List.mem_filter.1 hf
+              exact ⟨f, visitCrate_mem _ _ _ hv f hf1, hw.1, by simpa using hf2⟩
+      · rw [step_parse_fault rfl hp] at hx; cases hx
 
 /-! ## Configuration faults -/
 
@@ -300,7 +386,7 @@ example : (runProject formatProject formatFile idOps .files {} (demoTree .ok)) =
     ⟨.ok {}, [⟨0, .write .file, ['A', '\n']⟩, ⟨2, .write .file, ['C', '\n']⟩]⟩ := by decide
 
 /-- the same tree with an unclosed delimiter in the deepest module: hypothesis of
-`fault_implies_no_write` holds, nothing is written -/
+`fault_implies_no_write_status` holds, nothing is written -/
 example : faulty {} (demoTree .unclosed) = true ∧
     (runProject formatProject formatFile idOps .files {} (demoTree .unclosed)) = ⟨.err, []⟩ := by decide
 
@@ -345,7 +431,7 @@ example :
     (runCli (genF idOps .files) demoCfg false args).exit false = 1 :=
   ⟨rfl, by decide, by decide⟩
 
-/-- The flag half of `fault_implies_no_write` needs its hypothesis: a root on the `ignore` list under
+/-- The flag half of `fault_implies_no_write_status` needs its hypothesis: a root on the `ignore` list under
 `skip_children` is not parsed at all, so its unclosed delimiter goes unnoticed — empty report, exit 0
 (and nothing is written either).  The same holds under `disable_all_formatting`. -/
 theorem fault_flag_counterexample :
@@ -355,5 +441,497 @@ theorem fault_flag_counterexample :
   ⟨{ skipChildren := true },
     .node { path := 0, parse := .unclosed, orig := ['a'], visited := ['b'], ignored := true } .nil,
     by decide, by decide, by decide⟩
+
+/-! ## The parse-error bookkeeping (`SilentOnIgnoredFilesEmitter`, `can_reset`, `reset_errors`)
+
+Everything below is about the tables of `RF.Gen.ParseErrs`, which `translate/c05_errors.py` regenerates from
+src/parse/session.rs and src/parse/parser.rs on every run: `genEmit` (the two blocks of the emitter) and
+`genParse` (the arms of `parse_file_as_module` / `parse_crate`).  Quantification: every state the session can
+be in (in particular every history of earlier files), every sequence of diagnostics (level × location of the
+primary span), every way the rustc parser's call can end. -/
+
+/-- **The generated emitter blocks meet their specification** (finite check over the two flags): the block
+for a diagnostic that cannot be ignored raises `has_non_ignorable_parser_errors`, *clears `can_reset`* and
+hands the diagnostic on; the block for an ignored file touches nothing but `can_reset`, and raises it only
+while no non-ignorable diagnostic has been seen. -/
+theorem emit_prog_ok : emitProgOk genEmit = true := by decide
+
+/-- **`ParseSess::has_errors` emits the parser's stashed diagnostics before it looks** (generated from the
+source).  Without it a stashed error counts without ever reaching the emitter: `stash_flush_matters`. -/
+theorem stash_is_flushed : hasErrorsEmitsStashed = true := by decide
+
+/-- Closed form of the session after any sequence of *emitted* diagnostics, from any state. -/
+theorem emit_closed_form (ds : List Diag) (s : Sess) :
+    (emitNowAll genEmit s ds).hasNonIgn = (s.hasNonIgn || ds.any (fun d => !d.ignorable)) ∧
+    (emitNowAll genEmit s ds).canReset =
+      (if ds.any (fun d => !d.ignorable) then false else (s.canReset || (!s.hasNonIgn && !ds.isEmpty))) ∧
+    (emitNowAll genEmit s ds).errCount = s.errCount + ds.countP Diag.isError ∧
+    (emitNowAll genEmit s ds).shown = s.shown + ds.countP (fun d => !d.ignorable) ∧
+    (emitNowAll genEmit s ds).stash = s.stash :=
+  emitNowAll_of_ok genEmit emit_prog_ok ds s
+
+/-- … and of a sequence leaving the parser, where some diagnostics are stashed instead of emitted. -/
+theorem emit_stash_closed_form (ds : List Diag) (s : Sess) :
+    emitAll genEmit s ds =
+      { emitNowAll genEmit s (ds.filter fun d => !d.stashed) with stash := s.stash ++ ds.filter fun d => d.stashed } :=
+  emitAll_split genEmit emit_prog_ok ds s
+
+/-- **`can_reset` ⇒ only ignored files have complained.**  If the shared flag is up after a sequence of
+diagnostics in a fresh session, every diagnostic that went through the emitter was non-fatal and had its
+primary span in a local file on the ignore list. -/
+theorem can_reset_implies_only_ignored (ds : List Diag)
+    (h : (emitAll genEmit Sess.init ds).canReset = true) :
+    ∀ d ∈ ds, d.stashed = false → d.level ≠ .fatal ∧ d.loc = .localFile true := by
+  rw [emit_stash_closed_form] at h
+  simp only at h
+  obtain ⟨_, h2, _, _⟩ := emit_closed_form (ds.filter fun d => !d.stashed) Sess.init
+  rw [h2] at h
+  intro d hd hs
+  by_cases ha : (ds.filter fun d => !d.stashed).any (fun d => !d.ignorable) = true
+  · simp [ha] at h
+  · have : d.ignorable = true := by
+      cases hi : d.ignorable with
+      | true => rfl
+      | false =>
+        exact absurd (List.any_eq_true.2 ⟨d, List.mem_filter.2 ⟨hd, by simp [hs]⟩, by simp [hi]⟩) ha
+    simpa [Diag.ignorable] using this
+
+/-- The invariant behind it, from any state (`reset_errors()` touches neither flag, and emitting the stash is
+emitting, so it holds along every run of a session): `can_reset` is never up together with
+`has_non_ignorable_parser_errors`, and if it is up after a sequence, the whole sequence was ignorable. -/
+theorem can_reset_invariant (ds : List Diag) (s : Sess) (hs : s.canReset = true → s.hasNonIgn = false) :
+    ((emitNowAll genEmit s ds).canReset = true → (emitNowAll genEmit s ds).hasNonIgn = false) ∧
+    ((emitNowAll genEmit s ds).canReset = true → ∀ d ∈ ds, d.ignorable = true) := by
+  obtain ⟨h1, h2, _, _⟩ := emit_closed_form ds s
+  rw [h1, h2]
+  by_cases ha : ds.any (fun d => !d.ignorable) = true
+  · simp [ha]
+  · have hall : ∀ d ∈ ds, d.ignorable = true := by
+      intro d hd
+      cases hi : d.ignorable with
+      | true => rfl
+      | false => exact absurd (List.any_eq_true.2 ⟨d, hd, by simp [hi]⟩) ha
+    simp only [ha, Bool.false_eq_true, if_false, Bool.or_false]
+    refine ⟨?_, fun _ => hall⟩
+    intro hc
+    cases hn : s.hasNonIgn with
+    | false => rfl
+    | true =>
+      simp only [hn, Bool.not_true, Bool.false_and, Bool.or_false] at hc
+      exact absurd (hs hc) (by simp [hn])
+
+/-- The emitter is idempotent on a repeated diagnostic (so rustc's optional de-duplication of identical
+diagnostics, which skips the emitter call, cannot change either flag). -/
+theorem emitter_step_idempotent (s : Sess) (d : Diag) :
+    (emitterStep genEmit (emitterStep genEmit s d) d).hasNonIgn = (emitterStep genEmit s d).hasNonIgn ∧
+    (emitterStep genEmit (emitterStep genEmit s d) d).canReset = (emitterStep genEmit s d).canReset := by
+  rw [emitterStep_of_ok genEmit emit_prog_ok, emitterStep_of_ok genEmit emit_prog_ok s d]
+  by_cases hi : d.ignorable = true <;> by_cases hn : s.hasNonIgn = true <;> simp [hi, hn]
+
+/-- **A hard error is never lost on the way to the decision.**  An error that is fatal or lies outside the
+ignored files — emitted by the parser or only stashed — has, once `has_errors()` has emitted the stash,
+raised `has_non_ignorable_parser_errors`, taken `can_reset` down and left a non-zero error count, whatever
+came before it and whatever else the same call produced. -/
+theorem hard_error_poisons (s : Sess) (ds : List Diag) (h : ds.any Diag.hardError = true) :
+    (flushStash genEmit (emitAll genEmit s ds)).hasNonIgn = true ∧
+    (flushStash genEmit (emitAll genEmit s ds)).canReset = false ∧
+    (flushStash genEmit (emitAll genEmit s ds)).errCount ≠ 0 :=
+  flush_poisoned genEmit emit_prog_ok ds s h
+
+/-- emitting the stash empties it -/
+theorem flush_empties_stash (s : Sess) : (flushStash genEmit s).stash = [] := by
+  unfold flushStash
+  rw [(emit_closed_form _ _).2.2.2.2]
+
+/-- **The decisions of `parse_file_as_module`, as the generated arms have them**: the diagnostics leave the
+parser; on `Ok`, `has_errors()` emits the stash and the file is accepted when no error is counted, accepted
+after `reset_errors()` when `can_reset` is up, and a `ParseError` otherwise; an `Err(e)` from the parser emits
+`e`, resets if `can_reset`, and is a `ParseError`; an unwinding call is a `ParseError` if the path exists and
+a `ParsePanicError` if not. -/
+theorem parse_file_decisions (s : Sess) (fp : FileParse) :
+    parseFile genParse s fp =
+      (let s1 := emitAll genEmit s fp.diags
+       match fp.raw with
+       | .ok =>
+         let s2 := flushStash genEmit s1
+         if s2.errCount = 0 then (s2, some .ok)
+         else if s2.canReset = true then (s2.reset, some .ok) else (s2, some .parseError)
+       | .err e =>
+         let s2 := dcxEmit genEmit s1 e
+         ((if s2.canReset = true then s2.reset else s2), some .parseError)
+       | .unwound => (s1, some (if fp.pathExists = true then .parseError else .parsePanicError))) := by
+  unfold parseFile
+  cases fp.raw with
+  | ok =>
+    simp only [genParse, fileArms, selectArm, patMatches, evalGuard, hasErrorsCall, hasErrorsEmitsStashed, if_true,
+      runPStmts, runPStmt, Sess.hasErrors, flush_empties_stash, List.any_nil, Bool.or_false]
+    by_cases h0 : (flushStash genEmit (emitAll genEmit s fp.diags)).errCount = 0
+    · simp [h0]
+    · by_cases hc : (flushStash genEmit (emitAll genEmit s fp.diags)).canReset = true <;> simp [h0, hc]
+  | err e => rfl
+  | unwound =>
+    simp only [genParse, fileArms, selectArm, patMatches, evalGuard, runPStmts, runPStmt]
+    by_cases hp : fp.pathExists = true <;> simp [hp]
+
+/-- … and of `parse_crate` (the root): the same two ways of being accepted; every failing arm of
+`ParserBuilder::build` / `parse_crate_mod` is an `Err`. -/
+theorem parse_crate_decisions (s : Sess) (fp : FileParse) :
+    parseCrate genParse s fp =
+      (let s1 := emitAll genEmit s fp.diags
+       match fp.raw with
+       | .ok =>
+         let s2 := flushStash genEmit s1
+         if s2.errCount = 0 then (s2, some .ok)
+         else if s2.canReset = true then (s2.reset, some .ok) else (s2, some .parseError)
+       | .err e =>
+         (dcxEmit genEmit s1 e,
+          some (match fp.stage with | .build => .parserCreationError | .crateMod => .parsePanicError))
+       | .unwound => (s1, some .parsePanicError)) := by
+  unfold parseCrate
+  cases fp.raw with
+  | ok =>
+    simp only [genParse, crateArms, selectArm, patMatches, evalGuard, hasErrorsCall, hasErrorsEmitsStashed, if_true,
+      runPStmts, runPStmt, Sess.hasErrors, flush_empties_stash, List.any_nil, Bool.or_false]
+    by_cases h0 : (flushStash genEmit (emitAll genEmit s fp.diags)).errCount = 0
+    · simp [h0]
+    · by_cases hc : (flushStash genEmit (emitAll genEmit s fp.diags)).canReset = true <;> simp [h0, hc]
+  | err e => cases fp.stage <;> rfl
+  | unwound => cases fp.stage <;> rfl
+
+/-- The generated matches are exhaustive: a call always has a result. -/
+theorem parse_never_stuck (s : Sess) (fp : FileParse) :
+    (parseFile genParse s fp).2 ≠ none ∧ (parseCrate genParse s fp).2 ≠ none := by
+  rw [parse_file_decisions, parse_crate_decisions]
+  constructor
+  · cases fp.raw <;> simp only [] <;> (repeat' split) <;> simp
+  · cases fp.raw <;> simp only [] <;> (repeat' split) <;> simp
+
+/-- **A fault is never reset.**  A file whose parse does not end in `Ok`, or that reports an error which is
+fatal or lies outside the ignored files (emitted or stashed), is *not accepted* — by `parse_file_as_module`
+and by `parse_crate`, in every state of the session (whatever ignored or non-ignored files were parsed
+before, whether or not `can_reset` is up when the call starts, whatever is still stashed) and whatever other
+diagnostics the same call produces before or after. -/
+theorem non_ignored_error_never_reset : NeverAccepts genParse := by
+  have key : ∀ (s : Sess) (fp : FileParse), fp.fault = true → fp.raw = .ok →
+      (flushStash genEmit (emitAll genEmit s fp.diags)).errCount ≠ 0 ∧
+      (flushStash genEmit (emitAll genEmit s fp.diags)).canReset = false := by
+    intro s fp hf hr
+    simp only [FileParse.fault, FileParse.allDiags, hr, bne_self_eq_false, Bool.false_or] at hf
+    obtain ⟨_, h1, h2⟩ := hard_error_poisons s fp.diags hf
+    exact ⟨h2, h1⟩
+  constructor
+  · intro s fp hf
+    rw [parse_file_decisions]
+    cases hr : fp.raw with
+    | ok =>
+      obtain ⟨h1, h2⟩ := key s fp hf hr
+      simp [h1, h2]
+    | err e => simp
+    | unwound => by_cases hp : fp.pathExists = true <;> simp [hp]
+  · intro s fp hf
+    rw [parse_crate_decisions]
+    cases hr : fp.raw with
+    | ok =>
+      obtain ⟨h1, h2⟩ := key s fp hf hr
+      simp [h1, h2]
+    | err e => cases fp.stage <;> simp
+    | unwound => simp
+
+/-- when nothing is stashed, the session after the call's diagnostics and the `has_errors()` call is the
+session after emitting them -/
+theorem no_stash_flush (s : Sess) (ds : List Diag) (hs : s.stash = []) (hd : ∀ d ∈ ds, d.stashed = false) :
+    flushStash genEmit (emitAll genEmit s ds) = emitNowAll genEmit s ds := by
+  rw [emit_stash_closed_form]
+  have h1 : (ds.filter fun d => !d.stashed) = ds := List.filter_eq_self.2 (fun d hm => by simp [hd d hm])
+  have h2 : (ds.filter fun d => d.stashed) = [] := List.filter_eq_nil_iff.2 (fun d hm => by simp [hd d hm])
+  rw [h1, h2, hs]
+  unfold flushStash
+  simp only [List.append_nil, List.filter_nil, emitNowAll]
+  apply sess_eq <;> simp only
+  exact ((emit_closed_form ds s).2.2.2.2.trans hs).symm
+
+/-- Exactly when a module file is accepted (nothing stashed): the parser returned `Ok`, and either nothing is
+counted (before *and* during the call) or nothing that is not ignorable has ever been seen by this session
+while at least one ignorable diagnostic has. -/
+theorem accepted_iff (s : Sess) (fp : FileParse) (hs : s.stash = []) (hd : ∀ d ∈ fp.diags, d.stashed = false) :
+    (parseFile genParse s fp).2 = some .ok ↔
+      fp.raw = .ok ∧
+      ((s.errCount = 0 ∧ fp.diags.countP Diag.isError = 0) ∨
+       (fp.diags.any (fun d => !d.ignorable) = false ∧ (s.canReset = true ∨ (s.hasNonIgn = false ∧ fp.diags ≠ [])))) := by
+  rw [parse_file_decisions]
+  obtain ⟨_, h2, h3, _⟩ := emit_closed_form fp.diags s
+  cases hr : fp.raw with
+  | err e => simp
+  | unwound => by_cases hp : fp.pathExists = true <;> simp [hp]
+  | ok =>
+    simp only [true_and, no_stash_flush s fp.diags hs hd]
+    by_cases h0 : (emitNowAll genEmit s fp.diags).errCount = 0
+    · have : s.errCount = 0 ∧ fp.diags.countP Diag.isError = 0 := by omega
+      simp [h0, this]
+    · have hne : ¬ (s.errCount = 0 ∧ fp.diags.countP Diag.isError = 0) := by omega
+      by_cases hc : (emitNowAll genEmit s fp.diags).canReset = true
+      · simp only [h0, hc, if_false, if_true, true_iff]
+        right
+        rw [h2] at hc
+        by_cases ha : fp.diags.any (fun d => !d.ignorable) = true
+        · simp [ha] at hc
+        · simp only [ha, Bool.false_eq_true, if_false, Bool.or_eq_true, Bool.and_eq_true, Bool.not_eq_true',
+            List.isEmpty_eq_false_iff] at hc
+          exact ⟨by simpa using ha, hc⟩
+      · simp only [h0, hc, if_false, hne, false_or]
+        constructor
+        · intro h; cases h
+        · intro ⟨ha, hcr⟩
+          exfalso
+          apply hc
+          rw [h2]
+          simp only [ha, Bool.false_eq_true, if_false, Bool.or_eq_true, Bool.and_eq_true, Bool.not_eq_true',
+            List.isEmpty_eq_false_iff]
+          exact hcr
+
+/-- An accepted file leaves neither a counted error nor a stashed diagnostic behind (so the next file starts
+from a clean count). -/
+theorem accepted_leaves_no_errors (s : Sess) (fp : FileParse) (h : (parseFile genParse s fp).2 = some .ok) :
+    (parseFile genParse s fp).1.errCount = 0 ∧ (parseFile genParse s fp).1.stash = [] := by
+  rw [parse_file_decisions] at h ⊢
+  cases hr : fp.raw with
+  | err e => simp [hr] at h
+  | unwound => by_cases hp : fp.pathExists = true <;> simp [hr, hp] at h
+  | ok =>
+    simp only [hr] at h ⊢
+    by_cases h0 : (flushStash genEmit (emitAll genEmit s fp.diags)).errCount = 0
+    · simp [h0, flush_empties_stash]
+    · by_cases hc : (flushStash genEmit (emitAll genEmit s fp.diags)).canReset = true
+      · simp [h0, hc, Sess.reset]
+      · simp [h0, hc] at h
+
+/-- What `ignore` is for: while this session has seen nothing that is not ignorable, a file whose diagnostics
+are all non-fatal and lie in ignored files is accepted (its errors are reset), however many they are. -/
+theorem ignored_errors_are_reset (s : Sess) (fp : FileParse) (hs : s.hasNonIgn = false) (hst : s.stash = [])
+    (hr : fp.raw = .ok) (hd : ∀ d ∈ fp.diags, d.ignorable = true ∧ d.stashed = false) (hne : fp.diags ≠ []) :
+    (parseFile genParse s fp).2 = some .ok := by
+  rw [accepted_iff s fp hst (fun d hm => (hd d hm).2)]
+  refine ⟨hr, Or.inr ⟨?_, Or.inr ⟨hs, hne⟩⟩⟩
+  cases ha : fp.diags.any (fun d => !d.ignorable) with
+  | false => rfl
+  | true =>
+    obtain ⟨d, hm, hh⟩ := List.any_eq_true.1 ha
+    simp [(hd d hm).1] at hh
+
+/-- A call on a path that exists ends in `Ok` or in `ParseError` — never in `ParsePanicError`, which is what the
+arms of `find_external_module` treat as "the file is not there" (an unwinding parser on an existing file is a
+lexer error: `Err(..) if path.exists() => Err(ParseError)`). -/
+theorem existing_file_is_parse_error : ExistingIsParseError genParse := by
+  intro s fp he
+  rw [parse_file_decisions]
+  cases fp.raw with
+  | ok => simp only []; (repeat' split) <;> simp
+  | err e => simp
+  | unwound => simp [he]
+
+/-- **The generated arms of `find_external_module` / `find_mods_outside_of_ast` never go on past a file that
+does not parse** (finite check): a `ParseError` on a nested-path candidate or on the default file is an error of
+module resolution, with or without other candidates; an accepted file is left out exactly when it has
+`#![rustfmt::skip]`. -/
+theorem mod_prog_ok : modProgOk genMods = true := by decide
+
+theorem tables_safe : Safe genParse genMods :=
+  ⟨non_ignored_error_never_reset, existing_file_is_parse_error, mod_prog_ok⟩
+
+/-- The arms for a plain `mod m;` (no candidate: `outside_mods_empty`) and for `#[path = ".."] mod m;` agree with
+what `RF.Project.visitTree` hard-wires for `Mods.found`: `Ok` with `#![rustfmt::skip]` → left out, `Ok` → taken,
+every `Err` → module resolution fails. -/
+theorem plain_mod_arms_agree (ret : Option Ret) (sk : Bool) :
+    selectM pathArms ret sk true = (if ret = some .ok then (if sk then .skip else .use) else .fail) ∧
+    selectM dfltArms ret sk true = (if ret = some .ok then (if sk then .skip else .use) else .fail) := by
+  cases ret with
+  | none => cases sk <;> decide
+  | some r => cases r <;> cases sk <;> decide
+
+/-! ### lifted into the project model -/
+
+/-- **A failing root writes nothing** — files given by their diagnostics.  `pi` says, for every path, what
+the rustc parser does on that file (any sequence of diagnostics of any level located anywhere, emitted or
+stashed, then `Ok`, `Err` or an unwinding); each file carries whether it is on the `ignore` list; the session
+state is threaded through the files in the order `format_project` parses them, so that what an earlier (ignored
+or healthy) file did to `can_reset` and to the error count is what a later file meets; what
+`find_external_module` does with each parse result is read off the generated arms.  If the root file or any file
+that module resolution reaches — the default file of a `mod`, a `#[path]` target, a candidate of a nested
+`#[cfg_attr(.., path = "..")]`, anything below one that is taken — has a fault (the parser does not return
+`Ok`, or it reports an error that is fatal or has its primary span outside the ignored files; in particular a
+*recoverable* or a *stashed* syntax error in a file that is not ignored), or a `mod` has no file or two, then
+no file-system call is made for that root in any emit mode, and the failure is recorded. -/
+theorem fault_implies_no_write (pi : Nat → FileParse) (ops : FileOps) (kind : EmitterKind) (cfg : Cfg) (root : Tree)
+    (hf : faultyE pi cfg root = true) :
+    (runProjectE genParse genMods pi formatProject formatFile ops kind cfg root).log = [] ∧
+    ((cfg.skipChildren && root.file.ignored) = false →
+      (runProjectE genParse genMods pi formatProject formatFile ops kind cfg root).flagged = true) := by
+  have h := fault_implies_no_write_status ops kind cfg (annotateRoot genParse genMods pi cfg root)
+    (annotateRoot_faulty genParse genMods tables_safe pi cfg root hf)
+  rw [(annotateRoot_file genParse genMods pi cfg root).1] at h
+  exact h
+
+/-- **An ignored file is never written**, whatever its diagnostics did to the session: every file-system call of
+a run is on the path of a file that is not on the `ignore` list, has no `#![rustfmt::skip]` and is not a
+generated file. -/
+theorem ignored_file_never_written (pi : Nat → FileParse) (ops : FileOps) (kind : EmitterKind) (cfg : Cfg) (root : Tree) :
+    ∀ x ∈ (runProjectE genParse genMods pi formatProject formatFile ops kind cfg root).log,
+      ∃ f ∈ allFilesT (annotateRoot genParse genMods pi cfg root),
+        x.path = f.path ∧ f.ignored = false ∧ f.skipAttr = false ∧ f.generated = false := by
+  intro x hx
+  obtain ⟨f, hf, hp, hs⟩ := skipped_file_never_written ops kind cfg (annotateRoot genParse genMods pi cfg root) x hx
+  refine ⟨f, hf, hp, ?_⟩
+  simp only [shouldSkip, Bool.or_eq_false_iff] at hs
+  exact ⟨hs.1.2, hs.1.1.1, hs.2⟩
+
+/-- … and the process exits with 1 on any command line that contains that root. -/
+theorem fault_implies_exit_one_diags (pi : Nat → FileParse) (ops : FileOps) (kind : EmitterKind) (g : Config Cfg)
+    (usePath check : Bool) (args : List (Arg Cfg Tree)) (lc : Option (Config Cfg)) (root : Tree) (c : Config Cfg)
+    (ha : Arg.file lc (annotateRoot genParse genMods pi c.opts root) ∈ args) (hc : (if usePath then some g else lc) = some c)
+    (hd : c.disableAll = false) (hi : (c.opts.skipChildren && root.file.ignored) = false)
+    (hf : faultyE pi c.opts root = true) :
+    (runCli (genF ops kind) g usePath args).exit check = 1 :=
+  fault_implies_exit_one ops kind g usePath check args lc _ c ha hc hd
+    (by rw [(annotateRoot_file genParse genMods pi c.opts root).1]; exact hi)
+    (annotateRoot_faulty genParse genMods tables_safe pi c.opts root hf)
+
+/-! ### sensitivity and non-vacuity -/
+
+/-- a non-fatal error whose primary span lies in the file itself -/
+def ownErr (ignored : Bool) : Diag := { level := .error, loc := .localFile ignored }
+/-- a recoverable syntax error: the parser reports it and returns `Ok` -/
+def recoverable (ignored : Bool) : FileParse := { diags := [ownErr ignored] }
+def clean : FileParse := {}
+
+/-- root `0` (healthy, unformatted) declares `mod a;` (file 1, **on the ignore list**) and then `mod b;` (file 2,
+not ignored); both are unformatted -/
+def ignTree : Tree :=
+  .node { path := 0, parse := .ok, orig := ['r'], visited := ['R'] }
+    (.found (.node { path := 1, parse := .ok, orig := ['a'], visited := ['A'], ignored := true } .nil)
+      (.found (.node { path := 2, parse := .ok, orig := ['b'], visited := ['B'] } .nil) .nil))
+
+/-- the ignored file has a recoverable error; the file after it may have one too -/
+def ignPi (b : FileParse) : Nat → FileParse
+  | 1 => recoverable true
+  | 2 => b
+  | _ => clean
+
+/-- the emitter with `self.can_reset.store(false, …)` removed from `handle_non_ignoreable_error` -/
+def emitWithoutClear : EmitProg := ⟨[.setHasNonIgn true, .forward], ignoredFileBranch⟩
+
+/-- **Sensitivity: clearing `can_reset` matters.**  Without that one store the check `emitProgOk` fails, and
+there is a crate — an ignored module with a recoverable error, then a module that is *not* ignored with a
+recoverable error of its own — on which the run resets the second module's error, reports success and rewrites
+the root and the faulty module.  With the generated blocks the same crate fails with nothing written. -/
+theorem can_reset_clear_matters :
+    emitProgOk emitWithoutClear = false ∧
+    faultyE (ignPi (recoverable false)) {} ignTree = true ∧
+    runProjectE { genParse with emit := emitWithoutClear } genMods (ignPi (recoverable false)) formatProject formatFile idOps .files {} ignTree =
+      ⟨.ok {}, [⟨0, .write .file, ['R', '\n']⟩, ⟨2, .write .file, ['B', '\n']⟩]⟩ ∧
+    runProjectE genParse genMods (ignPi (recoverable false)) formatProject formatFile idOps .files {} ignTree = ⟨.err, []⟩ := by
+  decide
+
+/-- **Sensitivity: emitting the stash matters** (the defect D4 of the pinned tree, repaired in `has_errors`).
+If `has_errors()` only looks, a stashed error (`static X = 1;`) in a file that is *not* ignored never reaches the
+emitter; after an ignored file with a recoverable error `can_reset` is still up, the count is reset, the file
+is accepted and the root and the faulty file are rewritten.  With the generated value the crate fails. -/
+theorem stash_flush_matters :
+    let stashedErr : FileParse := { diags := [{ level := .error, loc := .localFile false, stashed := true }] }
+    faultyE (ignPi stashedErr) {} ignTree = true ∧
+    runProjectE { genParse with flush := false } genMods (ignPi stashedErr) formatProject formatFile idOps .files {} ignTree =
+      ⟨.ok {}, [⟨0, .write .file, ['R', '\n']⟩, ⟨2, .write .file, ['B', '\n']⟩]⟩ ∧
+    runProjectE genParse genMods (ignPi stashedErr) formatProject formatFile idOps .files {} ignTree = ⟨.err, []⟩ := by
+  decide
+
+/-- root `0` declares `#[cfg_attr(pred, path = "alt.rs")] mod m;` as its LAST module: candidate `alt.rs` (file 1,
+healthy), default file `m.rs` (file 2); `3` is what the file map holds for the path of `m.rs` when it is
+registered with the declaring item's module: the bytes of `m.rs`, the text of the *root* -/
+def cfgTree : Tree :=
+  .node { path := 0, parse := .ok, orig := ['r'], visited := ['R'] }
+    (.cfgAttr (.cons .use (.node { path := 1, parse := .ok, orig := ['a'], visited := ['A'] } .nil) .nil) .found .file
+      (.node { path := 2, parse := .ok, orig := ['m'], visited := ['M'] } .nil)
+      { path := 2, parse := .ok, orig := ['m'], visited := ['R'] } .nil)
+
+/-- a lexer-fatal error: one `Fatal` diagnostic in the file, the call unwinds -/
+def lexFatal : FileParse := { diags := [{ level := .fatal, loc := .localFile false }], raw := .unwound }
+
+/-- **Sensitivity: how an unwinding parser is classified matters.**  If `parse_file_as_module` reports every
+caught unwind as `ParsePanicError` (instead of `ParseError` when the path exists), the arm of
+`find_external_module` meant for "the default file is not there, but a candidate is" takes a default file with a
+lexer error: resolution goes on, the root and the candidate are rewritten, and the broken file is overwritten
+with the text of its parent.  With the generated arms the crate fails with nothing written. -/
+theorem unwind_classification_matters :
+    let pi : Nat → FileParse := fun | 2 => lexFatal | _ => clean
+    let arms' : List Arm := [⟨.okSome, .noErrors, [], .ok⟩, ⟨.okSome, .canReset, [.resetErrors], .ok⟩,
+      ⟨.okAny, .always, [], .parseError⟩, ⟨.unwound, .always, [], .parsePanicError⟩]
+    faultyE pi {} cfgTree = true ∧
+    runProjectE { genParse with fileArms := arms' } genMods pi formatProject formatFile idOps .files {} cfgTree =
+      ⟨.ok {}, [⟨0, .write .file, ['R', '\n']⟩, ⟨1, .write .file, ['A', '\n']⟩, ⟨2, .write .file, ['R', '\n']⟩]⟩ ∧
+    runProjectE genParse genMods pi formatProject formatFile idOps .files {} cfgTree = ⟨.err, []⟩ := by
+  decide
+
+/-- **Sensitivity: a candidate that does not parse must fail the run** (the defect D5 of the pinned tree,
+repaired in `find_mods_outside_of_ast`).  With the old arm `Err(..) => continue` a crate whose last module is
+`#[cfg_attr(a, path = "good.rs")] #[cfg_attr(b, path = "bad.rs")] mod m;` (no `m.rs`), `bad.rs` with a syntax
+error, is formatted and written. -/
+theorem candidate_failure_matters :
+    let pi : Nat → FileParse := fun | 2 => recoverable false | _ => clean
+    let t : Tree := .node { path := 0, parse := .ok, orig := ['r'], visited := ['R'] }
+      (.cfgAttr (.cons .use (.node { path := 1, parse := .ok, orig := ['a'], visited := ['A'] } .nil)
+          (.cons .use (.node { path := 2, parse := .ok, orig := ['b'], visited := ['B'] } .nil) .nil)) .notFound .candidates
+        (.node { path := 9, parse := .ok, orig := [], visited := [] } .nil) { path := 9, parse := .ok, orig := [], visited := [] } .nil)
+    let old : ModProg := { genMods with alt := [⟨.okSkip, .always, .skip⟩, ⟨.ok, .always, .use⟩, ⟨.errAny, .always, .skip⟩] }
+    modProgOk old = false ∧ faultyE pi {} t = true ∧
+    runProjectE genParse old pi formatProject formatFile idOps .files {} t =
+      ⟨.ok {}, [⟨0, .write .file, ['R', '\n']⟩, ⟨1, .write .file, ['A', '\n']⟩]⟩ ∧
+    runProjectE genParse genMods pi formatProject formatFile idOps .files {} t = ⟨.err, []⟩ := by
+  decide
+
+/-- the cfg_attr crate with healthy files: the candidate and the default file are both formatted; with a default
+file that carries `#![rustfmt::skip]` nothing below the declaration is (the candidates are dropped as well) -/
+example :
+    runProjectE genParse genMods (fun _ => clean) formatProject formatFile idOps .files {} cfgTree =
+      ⟨.ok {}, [⟨0, .write .file, ['R', '\n']⟩, ⟨1, .write .file, ['A', '\n']⟩, ⟨2, .write .file, ['M', '\n']⟩]⟩ ∧
+    runProjectE genParse genMods (fun _ => clean) formatProject formatFile idOps .files {}
+      (.node { path := 0, parse := .ok, orig := ['r'], visited := ['R'] }
+        (.cfgAttr (.cons .use (.node { path := 1, parse := .ok, orig := ['a'], visited := ['A'] } .nil) .nil) .found .file
+          (.node { path := 2, parse := .ok, orig := ['m'], visited := ['M'], skipAttr := true } .nil)
+          { path := 2, parse := .ok, orig := ['m'], visited := ['R'] } .nil)) =
+      ⟨.ok {}, [⟨0, .write .file, ['R', '\n']⟩]⟩ := by decide
+
+/-- the hypothesis of `fault_implies_no_write` is not always true, and the conclusion is not always true either:
+with the second module healthy the ignored module's error is reset and the run writes the two files that are
+not ignored (never the ignored one) -/
+example : faultyE (ignPi clean) {} ignTree = false ∧
+    runProjectE genParse genMods (ignPi clean) formatProject formatFile idOps .files {} ignTree =
+      ⟨.ok {}, [⟨0, .write .file, ['R', '\n']⟩, ⟨2, .write .file, ['B', '\n']⟩]⟩ := by decide
+
+/-- order does not help the faulty module: visited *before* the ignored one it fails as well; an ignored module
+alone is skipped and the root written; and an ignored module whose parse ends in `Err` (an unrecoverable error)
+fails the run although all its diagnostics are dropped -/
+example :
+    let swapped : Nat → FileParse := fun | 1 => recoverable false | 2 => recoverable true | _ => clean
+    let t : Tree := .node { path := 0, parse := .ok, orig := ['r'], visited := ['R'] }
+      (.found (.node { path := 1, parse := .ok, orig := ['a'], visited := ['A'] } .nil)
+        (.found (.node { path := 2, parse := .ok, orig := ['b'], visited := ['B'], ignored := true } .nil) .nil))
+    runProjectE genParse genMods swapped formatProject formatFile idOps .files {} t = ⟨.err, []⟩ ∧
+    runProjectE genParse genMods (ignPi clean) formatProject formatFile idOps .files {}
+      (.node { path := 0, parse := .ok, orig := ['r'], visited := ['R'] }
+        (.found (.node { path := 1, parse := .ok, orig := ['a'], visited := ['A'], ignored := true } .nil) .nil)) =
+      ⟨.ok {}, [⟨0, .write .file, ['R', '\n']⟩]⟩ ∧
+    runProjectE genParse genMods (fun | 1 => { diags := [], raw := .err (ownErr true) } | _ => clean) formatProject formatFile idOps .files {}
+      ignTree = ⟨.err, []⟩ := by decide
+
+/-- the hypotheses of `can_reset_implies_only_ignored`, `can_reset_invariant`, `hard_error_poisons`,
+`ignored_errors_are_reset` and `accepted_leaves_no_errors` are satisfiable by non-trivial values; the last
+line is a quirk the model predicted and the binary confirmed: after a mere *warning* in a file that is not
+ignored, the recoverable error of an ignored file is no longer reset and the run fails -/
+example :
+    (emitAll genEmit Sess.init [ownErr true, { level := .warning, loc := .localFile true }]).canReset = true ∧
+    (emitAll genEmit Sess.init [ownErr true, ownErr false, ownErr true]).canReset = false ∧
+    [ownErr true, { level := .fatal, loc := .localFile true }].any Diag.hardError = true ∧
+    (parseFile genParse Sess.init (recoverable true)) = (⟨false, true, 0, 0, []⟩, some .ok) ∧
+    (parseFile genParse ⟨false, true, 0, 0, []⟩ (recoverable false)) = (⟨true, false, 1, 1, []⟩, some .parseError) ∧
+    (parseFile genParse ⟨true, false, 0, 1, []⟩ (recoverable true)) = (⟨true, false, 1, 1, []⟩, some .parseError) := by decide
 
 end RF.Props.C05
